@@ -1,5 +1,5 @@
-//! Kani harnesses over postcard's core crate.  Every `#[kani::proof]` here is registered in
-//! /verif/registry.json (generated by bin/mkregistry from the `//@` annotations).
+//! Kani harnesses over postcard's core crate.  Every `#[kani::proof]` here is registered through the
+//! `//@ key=value` annotation line directly above it (parsed by /verif/bin/check).
 #![allow(dead_code, unused_imports, clippy::all)]
 
 #[path = "../../common/spec.rs"]
@@ -12,6 +12,34 @@ pub mod crc_ref;
 pub mod types;
 
 #[cfg(kani)]
+#[macro_use]
+#[path = "../../common/c11_body.rs"]
+pub mod c11_body;
+
+#[cfg(kani)]
 mod c01;
+#[cfg(kani)]
+mod c02;
+#[cfg(kani)]
+mod c03;
+#[cfg(kani)]
+mod c04;
+#[cfg(kani)]
+mod c05;
+#[cfg(kani)]
+mod c06;
+#[cfg(kani)]
+mod c07;
+#[cfg(kani)]
+mod c08;
+#[cfg(kani)]
+mod c10;
+#[cfg(kani)]
+mod c11;
+#[cfg(kani)]
+mod c12;
+pub mod c12_gen;
+#[cfg(kani)]
+mod c20;
 #[cfg(kani)]
 mod c13;
